@@ -898,6 +898,14 @@ def _conv_obj(st, name, cls, rows):
     return "ok"
 
 
+@op("conv_call")
+def _conv_call(st, name, a, u, d):
+    """the converter object called directly (not through a quantity)"""
+    with dflt_mode(d):
+        r = st.obj["convname", name](qty_of(a), Unit(u))
+    return "ok none" if r is None else "ok " + num_str(r)
+
+
 @op("conv_reg")
 def _conv_reg(st, cls, name):
     _cls(st, cls).register_converter(st.obj["conv", name]())
